@@ -665,6 +665,116 @@ def mul_rules(prog, chk, pid):
                 "left-to-right double-and-add over the NAF digits with the sign of the digit selecting +P / -P (P scaled to Z = 1)", why)
 
 
+def mul_add_rules(prog, chk, pid):
+    """a*A + b*B by interleaved NAF digits (Shamir's trick): every step doubles the accumulator and adds the combination
+    sign(dA)*A + sign(dB)*B; the four mixed combinations are precomputed with exactly those signs.  Checked on the trace:
+    each addition inside the loop is classified by the branch conditions on the two digits and by which point it adds."""
+    P = lambda s: "%s.%s" % (pid, s)
+    cls = prog.cls(PJ)
+    fi = cls.methods["mul_add"]
+    where = "%s:%d" % (fi.file, fi.lineno)
+    ex = Exec(prog, policy=lambda e, f, d: False)
+    res = ex.run(fi)
+    calls = [e for e in res.events if e.kind == "call" and e.d["callee"].name in ("_add", "_double")]
+    loops = [l for l in ex.loops.values() if l.kind == "for" and "X3" in l.next]
+    ok, why = len(loops) == 1, "no double-and-add loop"
+    if ok:
+        lr = loops[0]
+        inl = lambda e: any(f[0] == "loop" and f[1] == lr.id for f in e.ctx)
+        pre = [e for e in calls if e.d["callee"].name == "_add" and not inl(e)]
+
+        def sign_of(y):
+            y = unsnap(y)
+            return -1 if (y.op == "un" and y.args[0] == "USub") else 1
+
+        def who(x):
+            """which base point a coordinate term belongs to: 'A' (self), 'B' (other) or None"""
+            t = show(x, 6)
+            if "coords" not in t:
+                return None
+            return "A" if t.lstrip("-(").startswith("self.") or t.lstrip("-(").startswith("…._PointJacobi__coords") and "phi" not in t and "other" not in t else "B"
+
+        combos = {}
+        okp = len(pre) == 4
+        for e in pre:
+            a = e.d["args"]
+            xa, ya, za, xb, yb, zb = a[1:7]
+            ta, tb = show(xa, 5), show(xb, 5)
+            if not (ta.startswith("self.") and not tb.startswith("self.")):
+                okp = False
+                continue
+            combos[unsnap(e.d["result"]).uid] = (sign_of(ya), sign_of(yb))
+        ok = okp and sorted(combos.values()) == [(-1, -1), (-1, 1), (1, -1), (1, 1)]
+        why = "the four mixed points are not -A-B, +A-B, -A+B, +A+B (signs found: %s)" % sorted(combos.values())
+    if ok:
+        dbl = [e for e in calls if e.d["callee"].name == "_double" and inl(e)]
+        adds = [e for e in calls if e.d["callee"].name == "_add" and inl(e)]
+        ok = len(dbl) == 1 and not [f for f in dbl[0].ctx if f[0] == "if" and dbl[0].ctx.index(f) > [g[0] for g in dbl[0].ctx].index("loop")] and len(adds) == 8 and all(dbl[0].uid < a.uid for a in adds)
+        why = "a step is not one unconditional doubling followed by one of eight additions"
+    if ok:
+        # digits: the loop target is (A, B) = elem(zip(self_naf, other_naf)); conditions compare elem[0] / elem[1] with 0
+        it_ = unsnap(lr.iter) if lr.iter is not None else None
+        zsrc = list(it_.args[1].args[0]) if (it_ is not None and it_.op == "iterview" and it_.args[0] == "zip" and len(it_.args[1].args[0]) == 2) else None
+
+        def digit_signs(e):
+            sa = sb = None
+            seen = False
+            for f in e.ctx:
+                if f[0] == "loop" and f[1] == lr.id:
+                    seen = True
+                    continue
+                if not seen or f[0] != "if":
+                    continue
+                c = unsnap(f[1])
+                if c.op != "cmp" or not (is_const(c.args[2]) and cval(c.args[2]) == 0):
+                    continue
+                dterm = unsnap(c.args[1])
+                which = None
+                if dterm.op == "elem" and zsrc is not None:
+                    src_ = unsnap(dterm.args[0])
+                    which = "A" if src_ is unsnap(zsrc[0]) else ("B" if src_ is unsnap(zsrc[1]) else None)
+                if which is None:
+                    continue
+                cur = sa if which == "A" else sb
+                if c.args[0] == "Eq":
+                    val = 0 if f[2] else cur
+                elif c.args[0] == "Lt":
+                    val = -1 if f[2] else (1 if cur is None else cur)
+                elif c.args[0] == "Gt":
+                    val = 1 if f[2] else cur
+                else:
+                    val = cur
+                if which == "A":
+                    sa = val
+                else:
+                    sb = val
+            return sa, sb
+
+        bad = []
+        seen_pairs = set()
+        for e in adds:
+            a = e.d["args"]
+            sa, sb = digit_signs(e)
+            xb, yb = a[4], a[5]
+            src = unsnap(xb)
+            if src.op == "sub" and unsnap(src.args[0]).uid in combos:
+                added = combos[unsnap(src.args[0]).uid]
+            else:
+                t = show(xb, 5)
+                added = (sign_of(yb), 0) if t.startswith("self.") else (0, sign_of(yb))
+            seen_pairs.add((sa, sb))
+            if added != (sa, sb):
+                bad.append("digits (%s, %s) add %s" % (sa, sb, added))
+        ok = not bad and len(seen_pairs) == 8 and (0, 0) not in seen_pairs
+        why = "; ".join(bad[:3]) or "the eight non-zero digit combinations are not all handled (%s)" % sorted(seen_pairs, key=str)
+    chk.require(ok, P("mul-add-combinations"), fi.qualname, "R = 2R; R += sign(dA)*A + sign(dB)*B over the interleaved NAF digits; mixed points -A-B, +A-B, -A+B, +A+B precomputed", where,
+                "every step of the combined multiplication adds exactly the combination of A and B that the two NAF digits call for", why)
+    # fallbacks: zero multipliers / infinity / both precomputed / A + B = infinity reduce to the two single multiplications
+    rets = [e for e in res.events if e.kind == "return" and e.stack == (fi.qualname,)]
+    fb = [r for r in rets if unsnap(r.d["value"]).op in ("bin", "call") and "Mult" in show(r.d["value"], 3) or "__mul__" in show(r.d["value"], 3) or " * " in show(r.d["value"], 4)]
+    chk.require(len(fb) >= 3, P("mul-add-fallbacks"), fi.qualname, "self*a, other*b, self*a + other*b on the degenerate paths", where, "degenerate cases fall back to separate multiplications", "expected the separate-multiplication fallbacks (found %d)" % len(fb))
+
+
 def poly_rules(prog, chk, pid):
     """formula functions as polynomial identities (mod-p reductions dropped: ring homomorphism Z[..] -> F_p[..])"""
     try:
@@ -771,6 +881,7 @@ def run(prog, chk, tier):
     ecdh_rules(prog, chk, "C17")
     equality_rules(prog, chk, "C17")
     mul_rules(prog, chk, "C17")
+    mul_add_rules(prog, chk, "C17")
     c09.validation_chain_rules(prog, chk, "C17")
     c09.decoded_coordinates_rules(prog, chk, "C17")
     try:
